@@ -2,6 +2,7 @@
 from __future__ import annotations
 
 import ast
+import copy
 import re
 import typing as T
 
@@ -175,6 +176,14 @@ class _Inline:
                     return None
         elif isinstance(f, ast.Name) and self.p.mod.has_func(f.id):
             fn = self.p.mod.func(f.id)
+        elif isinstance(f, ast.Attribute) and isinstance(f.value, ast.Name) and self.p.mod.has_cls(f.value.id) and self.p.mod.has_func(f'{f.value.id}.{f.attr}'):
+            fn = self.p.mod.func(f'{f.value.id}.{f.attr}')          # Other.helper(..): a classmethod / staticmethod of another class
+            decos = [attr_chain(d) for d in fn.decorator_list]
+            if 'classmethod' in decos:
+                e = c16_sym.inline_call(fn, c, True)
+                return subst(e, {fn.args.args[0].arg: ast.Name(id=f.value.id, ctx=ast.Load())}) if e is not None and fn.args.args else None
+            if 'staticmethod' not in decos:
+                return None
         if fn is None:
             return None
         return c16_sym.inline_call(fn, c, skip)
@@ -414,20 +423,32 @@ def creach(ctx: RuleCtx, p: Pass, fn: ast.FunctionDef, site: T.Optional[ast.stmt
         if opaque_w:
             # a decorator may factor out the guard (`@_only_when(...)`): the body alone does not show when it runs
             raise Undecided(f'{p.name}.{fn.name} is wrapped by `@{opaque_w[0]}`, which may hold the guard of `{short(site, 60)}`')
-    if not rs or depth >= 2 or hyp.atoms is not None:
+    if not rs or depth >= 2:
         return rs
     if fn.name.startswith('visit_') or fn.name in ('enter_node', 'exit_node', '__init__', 'visit_default_func'):
         return rs                                   # entry points of the visitor protocol
     callers = _callers(p, fn)
     if not callers:
         return rs
+
+    class _Rename(ast.NodeTransformer):
+        """caller access path -> callee parameter name (so that caller expressions speak the callee's language)"""
+        def __init__(self, back: T.Dict[str, str]):
+            self.back = back
+
+        def generic_visit(self, n: ast.AST) -> ast.AST:
+            if isinstance(n, (ast.Name, ast.Attribute, ast.Subscript)) and norm(n) in self.back:
+                return ast.Name(id=self.back[norm(n)], ctx=ast.Load())
+            return super().generic_visit(n)
+    out: T.List[Reach] = []
+    kw2 = {k: v for k, v in kw.items() if k not in ('observer', 'init_binds')}
     for g, call, skip in callers:
         m = bind_args(fn, call, skip)
         if m is None:
             return rs
 
         def tr(d: T.Dict[str, T.Any]) -> T.Optional[T.Dict[str, T.Any]]:
-            out = {}
+            res = {}
             for k, v in d.items():
                 try:
                     e = ast.parse(k, mode='eval').body
@@ -436,15 +457,22 @@ def creach(ctx: RuleCtx, p: Pass, fn: ast.FunctionDef, site: T.Optional[ast.stmt
                 names = {n.id for n in ast.walk(e) if isinstance(n, ast.Name)} - {'self', 'ANY', 'mparser', 'len', 'isinstance'}
                 if not names <= set(m):
                     return None                     # the hypothesis speaks about something that is not a parameter
-                out[norm(subst(e, m))] = v
-            return out
-        st2, vo2 = tr(hyp.stable), tr(hyp.volatile)
+                res[norm(subst(e, m))] = v
+            return res
+        st2, vo2 = (tr(hyp.stable), tr(hyp.volatile)) if hyp.atoms is None else ({}, {})
         if st2 is None or vo2 is None:
             return rs
-        kw2 = {k: v for k, v in kw.items() if k != 'observer'}
-        if creach(ctx, p, g, stmt_of(g, call), Hyp(st2, vo2, hyp.label), depth + 1, **kw2):
-            return rs
-    return []
+        # paths of the caller up to the call, under the translated hypothesis (none if it cannot be translated)
+        for rc in creach(ctx, p, g, stmt_of(g, call), Hyp(st2, vo2, hyp.label), depth + 1, **kw2):
+            back = {norm(subst(v, rc.binds)): k for k, v in m.items() if _is_access_path(norm(subst(v, rc.binds)))}
+            init = {k: _Rename(back).visit(copy.deepcopy(subst(v, rc.binds))) for k, v in m.items()
+                    if not _is_access_path(norm(subst(v, rc.binds)))}
+            init = {k: v for k, v in init.items() if not any(isinstance(x, ast.Name) and x.id == k for x in ast.walk(v))}
+            # only plain values (flags, counts) are replaced; a parameter the callee dereferences stays a name of its own
+            deref = {x.value.id for x in ast.walk(fn) if isinstance(x, (ast.Attribute, ast.Subscript)) and isinstance(x.value, ast.Name)}
+            init = {k: v for k, v in init.items() if k not in deref}
+            out.extend(reach(fn, site, hyp, init_binds=init, **kw))
+    return out
 
 
 def _type_hook(model: NodeModel, types: T.Dict[str, str]) -> T.Callable[[ast.Call, T.Any], T.Any]:
@@ -1551,12 +1579,20 @@ def _justified(ctx: RuleCtx, p: Pass, qn: str, fn: ast.FunctionDef, s: Site, par
     if m and s.what.startswith('pops'):
         x = m.group(1)
         # the pop happens only when a trailing comma is present
-        if any(reach(fn, s.stmt, h) for h in trailing_hyps(x, False)):
+        if any(creach(ctx, p, fn, s.stmt, h) for h in trailing_hyps(x, False)):
             return None
+        entry = fn
+        for _ in range(2):
+            if entry.name.startswith('visit_'):
+                break
+            cs = _callers(p, entry)
+            if len({id(c[0]) for c in cs}) != 1:
+                break
+            entry = cs[0][0]
         for q in passes:
-            if q.name == p.name or fn.name not in _methods(q):
+            if q.name == p.name or entry.name not in _methods(q):
                 continue
-            g = _methods(q)[fn.name]
+            g = _methods(q)[entry.name]
             mv = _movers(q)
             if not mv:
                 continue
@@ -1601,7 +1637,7 @@ def _justified(ctx: RuleCtx, p: Pass, qn: str, fn: ast.FunctionDef, s: Site, par
             if good and unresolved:
                 raise Undecided(unresolved[0])
             if good and n and _pass_order(ctx, q.name, p.name):
-                return (f'{q.name}.{fn.name} moves the whitespace of the trailing comma to the argument list on all {n} path(s) with a trailing comma, '
+                return (f'{q.name}.{entry.name} moves the whitespace of the trailing comma to the argument list on all {n} path(s) with a trailing comma, '
                         f'and Formatter.format runs {q.name} before {p.name} in every round')
         return None
     # J2: inner.whitespaces of a parenthesised expression that is not multiline
@@ -1611,6 +1647,7 @@ def _justified(ctx: RuleCtx, p: Pass, qn: str, fn: ast.FunctionDef, s: Site, par
         e = ast.parse(x, mode='eval').body
         if not all(t in model.classes and model.is_sub(t, 'ParenthesizedNode') for t in ty.of(e)):
             return None
+        _Inline(ctx, p).use()
         if reach(fn, s.stmt, Hyp({f'{x}.is_multiline': True})):
             return None
         dets = set()
@@ -1623,6 +1660,12 @@ def _justified(ctx: RuleCtx, p: Pass, qn: str, fn: ast.FunctionDef, s: Site, par
                     a = subst(st.value.args[0], r.binds)
                     if isinstance(a, ast.Call) and attr_chain(a.func) is not None:
                         d = norm(a)
+                elif ev.kind == 'stmt' and isinstance(st, ast.Assign) and isinstance(st.value, ast.Call) and any(norm(a0) == f'{x}.inner' for a0 in st.value.args):
+                    # x = Detector.run(node.inner): a helper that builds the detector, runs it over the argument and returns what it recorded
+                    inl = _Inline(ctx, p).resolve(st.value)
+                    ctor = [n for n in ast.walk(inl) if isinstance(n, ast.Call) and (attr_chain(n.func) or '') in [q.name for q in passes]] if inl is not None else []
+                    if len(ctor) == 1 and norm(inl).startswith(norm(ctor[0]) + '.'):
+                        d = norm(ctor[0])
             if d is None:
                 return None
             dets.add(d)
@@ -1792,11 +1835,33 @@ def r4(ctx: RuleCtx) -> None:
         if r.outcome[0] == 'raise' or not any(e.node is fmt[0] for e in r.path.events):
             continue
         n_rows += 1
-        inpl, co, cd = val_of(r, flag('inplace')), val_of(r, flag('check_only')), val_of(r, flag('check_diff'))
+        inpl = val_of(r, flag('inplace'))
         if inpl is None:
             raise Undecided(f'run(): a path after formatting does not test options.inplace: {r!r}')
-        # a mode flag the path never tests may have either value: the path also serves the worlds where it is set
-        check = (not inpl) and (co is not False or cd is not False)
+        # a mode flag the path never tests may have either value: the path also serves the worlds where it is set.
+        # Worlds over (check_only, check_diff) consistent with every atom of the row that is a function of the two flags
+        # (the flags themselves, or a local such as `check_mode = options.check_only or options.check_diff`).
+        from .c16_sym import Evaluator, truth as _truth
+        worlds = []
+        for co in (True, False):
+            for cd in (True, False):
+                env = {f'{opt}.check_only': co, f'{opt}.check_diff': cd}
+                okw = True
+                for a2, val in r.conds.items():
+                    if a2.kind != 'truth':
+                        continue
+                    txt = a2.args[0].replace('ARG1.', f'{opt}.')
+                    try:
+                        e2 = ast.parse(txt, mode='eval').body
+                    except SyntaxError:
+                        continue
+                    e2 = subst(e2, {k: v for k, v in sdefs.items() if k not in (in_v, out_v)})
+                    t2 = _truth(Evaluator(env).ev(e2))
+                    if t2 is not None and t2 != val:
+                        okw = False
+                if okw:
+                    worlds.append((co, cd))
+        check = (not inpl) and any(co or cd for co, cd in worlds)
         eq, unknown = eq_of(r)
         sets = list(r.effects)
         if unknown:
